@@ -444,7 +444,10 @@ def call_builtin(eng, nm, args, kw, st, e):
                     return Val.of_bool(eng.kind_is(v, "ndarray"))
             if t.py[0] == "class" and v.py is not None and v.py[0] == "instance":
                 return Val.of_bool(v.py[1] == tn)
-        return Val.of_bool(z3.Bool(c.fresh("isinstance")))
+        r = z3.Bool(c.fresh("isinstance"))
+        if v.none is not None:
+            r = z3.And(z3.Not(v.none), r)  # None is an instance of nothing we ever test for
+        return Val.of_bool(r)
     if nm == "type":
         v = args[0]
         if v.tup is not None and v.py != ("list",):
